@@ -301,8 +301,10 @@ def satisfies(t, v, u, mod=None):
     if k == "enum":
         import enum
         return isinstance(v, enum.Enum)
-    if k in ("int", "float"):
-        return isinstance(v, (int, float)) and not isinstance(v, bool)
+    if k == "int":
+        return isinstance(v, int) and not isinstance(v, bool)
+    if k == "float":
+        return isinstance(v, float)
     if k == "str":
         return isinstance(v, str)
     if k == "bool":
